@@ -11,6 +11,11 @@ Events
   get:<path>  set:<path>:<json>  list:<path>  clear:<path>  dump:<path>
       start request k (k = 0,1,2.. in start order) via the public method and
       leave it in flight.  Its correlation data is bytes([k])*16.
+  inpub:<n>
+      the n `msg` events that follow the NEXT request event are dispatched while
+      that request's publish() call is still in progress (async: while it is
+      awaited; sync: before it returns), i.e. a response overtaking the return
+      of publish().
   msg:<topic>:<payload>:<cd>:<code>
       topic  : R (client's response topic) | code points
       payload: code points (UTF-8 encoded before delivery)
@@ -145,6 +150,10 @@ def parse_event(tok):
         if len(parts) != 3:
             raise ValueError(tok)
         return kind, (dec(parts[1]), json.loads(dec(parts[2])))
+    if kind == "inpub":
+        if len(parts) != 2:
+            raise ValueError(tok)
+        return kind, (int(parts[1]),)
     if kind == "msg":
         if len(parts) != 5:
             raise ValueError(tok)
@@ -251,16 +260,36 @@ async def run_async(events):
             break
     tasks = []
     try:
-        for kind, args in events:
+        events = list(events)
+        inpub = 0
+        i = -1
+        while i + 1 < len(events):
+            i += 1
+            kind, args = events[i]
+            if kind == "inpub":
+                inpub = args[0]
+                continue
             if kind in REQUEST_KINDS:
                 FAKE_UUID.k = len(tasks)
                 npub = len(client.published)
+                if inpub:
+                    early = [a for k2, a in events[i + 1:i + 1 + inpub] if k2 == "msg"]
+                    del events[i + 1:i + 1 + inpub]
+                    inpub = 0
+
+                    def hook(early=early):
+                        for a in early:
+                            t, p, pr = build_message(mc.response_topic, a)
+                            mc._dispatch(aiomqtt.Message(t, p, pr))
+                    client.publish_hook = hook
                 task = asyncio.ensure_future(call_request(mc, kind, args))
                 tasks.append(task)
                 for _ in range(20):
                     await asyncio.sleep(0)
-                    if len(client.published) > npub or task.done():
+                    if (len(client.published) > npub and getattr(client, "publish_hook", None) is None) or task.done():
                         break
+                for _ in range(4):
+                    await asyncio.sleep(0)
             else:
                 topic, payload, props = build_message(mc.response_topic, args)
                 mc._dispatch(aiomqtt.Message(topic, payload, props))
@@ -320,10 +349,28 @@ def run_sync(events):
             if (r.completed or not r.registered) and r.thread.is_alive():
                 r.thread.join(2.0)
 
-    for kind, args in events:
+    events = list(events)
+    inpub = 0
+    i = -1
+    while i + 1 < len(events):
+        i += 1
+        kind, args = events[i]
+        if kind == "inpub":
+            inpub = args[0]
+            continue
         if kind in REQUEST_KINDS:
             req = _SyncReq(len(reqs))
             FAKE_UUID.k = req.k
+            if inpub:
+                early = [a for k2, a in events[i + 1:i + 1 + inpub] if k2 == "msg"]
+                del events[i + 1:i + 1 + inpub]
+                inpub = 0
+
+                def hook(early=early):
+                    for a in early:
+                        t, p, pr = build_message(mc.response_topic, a)
+                        mc._dispatch(client, None, paho_client.MQTTMessage(0, t, p, pr))
+                client.publish_hook = hook
 
             def target(req=req, kind=kind, args=args):
                 try:
